@@ -359,10 +359,10 @@ class StmtMixin:
         st_t, st_f = st, st.fork()
         st_t.assume(c)
         st_f.assume(z3.Not(c))
-        if solve.feasible(st_t.pc):
+        if solve.feasible(st_t.full_pc()):
             st_t.trace.append("L%d:if-true" % s.lineno)
             res += self.exec_block(s.body, st_t)
-        if solve.feasible(st_f.pc):
+        if solve.feasible(st_f.full_pc()):
             st_f.trace.append("L%d:if-false" % s.lineno)
             res += self.exec_block(s.orelse, st_f) if s.orelse else [("normal", st_f, None)]
         return res
@@ -553,7 +553,7 @@ class StmtMixin:
         # body path
         sb = head.fork()
         sb.assume(c)
-        if solve.feasible(sb.pc):
+        if solve.feasible(sb.full_pc()):
             self.canary(sb, s, "loop body of %s" % key)
             dec0 = self.spec_int(lc["decreases"], sb) if lc.get("decreases") else None
             for kind, s2, v in self.exec_block(s.body, sb):
@@ -570,7 +570,7 @@ class StmtMixin:
         # exit path
         se = head
         se.assume(z3.Not(c))
-        if solve.feasible(se.pc):
+        if solve.feasible(se.full_pc()):
             res.append(("normal", se, None))
         return res
 
@@ -701,7 +701,7 @@ class StmtMixin:
         sb.assume(k < n)
         d["bind"](sb, k)
         self.assume_invs(sb, lc)
-        if solve.feasible(sb.pc):
+        if solve.feasible(sb.full_pc()):
             self.canary(sb, s, "loop body of %s" % key)
             for kind, s2, v in self.exec_block(s.body, sb):
                 if kind in ("normal", "continue"):
@@ -733,10 +733,10 @@ class StmtMixin:
                     se.vars[nm] = (mv, dd)
                 except VCError:
                     se.vars[nm] = (lv, n > 0)
-        if solve.feasible(se.pc):
+        if solve.feasible(se.full_pc()):
             res.append(("normal", se, None))
         return res
 
     def canary(self, st, node, what):
         """Vacuity guard: the point must be reachable (pc satisfiable)."""
-        self.canaries.append((what, getattr(node, "lineno", 0), solve.feasible(st.pc, 1000, full=True)))
+        self.canaries.append((what, getattr(node, "lineno", 0), solve.feasible(st.full_pc(), 1000, full=True)))
